@@ -193,13 +193,34 @@ class CaseTimeout(BaseException):
     pass
 
 
+_ARMED = [False]
+
+
 def _alarm(signum, frame):
-    raise CaseTimeout()
+    # the timer repeats (see run_case); deliveries after the case has ended are ignored
+    if _ARMED[0]:
+        raise CaseTimeout()
+
+
+def _disarm():
+    import signal
+    _ARMED[0] = False
+    signal.setitimer(signal.ITIMER_REAL, 0)
 
 
 def run_case(mod, case, ctx, res, deadline=None):
     """Run one case, classify the outcome into res.  A case that exceeds the module's
     CASE_TIMEOUT is counted as inconclusive (never as a violation)."""
+    try:
+        return _run_case(mod, case, ctx, res)
+    except CaseTimeout:
+        # delivered in the few instructions between the end of check() and the disarming
+        _disarm()
+        res['case_timeouts'] = res.get('case_timeouts', 0) + 1
+        return None
+
+
+def _run_case(mod, case, ctx, res):
     import signal
     ctx.case = case
     ctx.case_nontrivial = False
@@ -207,24 +228,30 @@ def run_case(mod, case, ctx, res, deadline=None):
     limit = getattr(mod, 'CASE_TIMEOUT', 120)
     signal.signal(signal.SIGALRM, _alarm)
     # repeating: library code has bare 'except:' blocks that can swallow the first delivery
+    _ARMED[0] = True
     signal.setitimer(signal.ITIMER_REAL, limit, 0.25)
     try:
         mod.check(case, ctx)
+        _ARMED[0] = False
         return None
     except CaseTimeout:
+        _ARMED[0] = False
         res['case_timeouts'] = res.get('case_timeouts', 0) + 1
         return None
     except Discard as d:
+        _ARMED[0] = False
         res['discarded'] += 1
         ctx.count('discard:' + d.why)
         return None
     except KnownHit as k:
+        _ARMED[0] = False
         res['known_hits'][k.kf_id] = res['known_hits'].get(k.kf_id, 0) + 1
         return None
     except Violation as v:
+        _ARMED[0] = False
         return v
     finally:
-        signal.setitimer(signal.ITIMER_REAL, 0)
+        _disarm()
 
 
 def _record_failure(res, v, case, origin):
